@@ -454,13 +454,15 @@ Proof.
   rewrite parse_desc_render by lia.
   replace ((len m =? 0) || (nchar =? 0)) with false.
   2:{ symmetry. apply orb_false_iff. split; apply Z.eqb_neq; lia. }
+  assert (Hall : forallb (fun r : text * list C => len (snd r) =? nchar) m = true).
+  { apply forallb_forall. intros r Hin. apply Z.eqb_eq. apply (Hok r Hin). }
   destruct (r_interleaved ro).
   - replace (-1) with (len (@nil (text * list C)) - 1) by reflexivity.
     rewrite (interleaved_rows maxlen (len m) nchar m []); try assumption.
-    + cbn [bind app]. rewrite Z.eqb_refl. reflexivity.
+    + cbn [bind app]. rewrite Z.eqb_refl. rewrite Hall. reflexivity.
     + reflexivity.
   - rewrite (sequential_rows maxlen (len m) nchar m []); try assumption.
-    + cbn [bind app]. rewrite Z.eqb_refl. reflexivity.
+    + cbn [bind app]. rewrite Z.eqb_refl. rewrite Hall. reflexivity.
     + unfold len. simpl. lia.
 Qed.
 
